@@ -132,6 +132,12 @@ def check(ctx, report):
             report.add('C04.R1', key, 'guard `%s` is not strict: the reported count can be 0' % ast.unparse(guard))
         elif deficit != want:
             report.add('C04.R1', key, 'guard `%s` says %s bytes are missing, the error reports %s' % (ast.unparse(guard), deficit, want))
+        elif not any(v < 0 and (k.startswith('ulen(') or k.startswith('len(')) for k, v in want.terms.items()):
+            # needed - available: what is subtracted has to measure the input that is there (len of the buffer, unparsed_length of the
+            # parser). A count measured against a *declared* length (a field of the message) asks for bytes the sender never writes
+            report.add('C04.R1', key, 'the count %s is not measured against the bytes that are available (no len(<input>) / unparsed_length is '
+                       'subtracted): a complete message whose declared size is small is answered with NotEnoughData and the reader waits for '
+                       'bytes that are never sent' % ast.unparse(payload))
         else:
             report.sample({'rule': 'C04.R1', 'site': cons, 'guard': ast.unparse(guard), 'count': ast.unparse(payload), 'verdict': 'agree'})
     propagation(ctx, report)
